@@ -15,6 +15,7 @@ import (
 	"sort"
 	"strconv"
 	"strings"
+	"time"
 )
 
 type vfReplayFile struct {
@@ -124,6 +125,24 @@ func vfMapOrder(on bool)                     {}
 func vfNarrow(on bool)                       {}
 func vfNarrowViolations() int                { return 0 }
 func vfPlaceholder(tok string) (Value, bool) { return nil, false }
+
+// vfOpaqueDate is an arbitrary text; natively a concrete one that matches layout.
+func vfOpaqueDate(name, layout string) string {
+	vfOpaqueLayouts[name] = layout
+	return time.Unix(1643796672, 0).UTC().Format(layout)
+}
+
+// vfParsedUnix is time.Parse(layout, text of name) as (unix seconds, ok); the
+// executor treats it as an uninterpreted function of (layout, name).
+func vfParsedUnix(name, layout string) (int64, bool) {
+	t, err := time.Parse(layout, vfOpaqueDate(name, vfOpaqueLayouts[name]))
+	if err != nil {
+		return 0, false
+	}
+	return t.Unix(), true
+}
+
+var vfOpaqueLayouts = map[string]string{}
 
 // vfSharedMutable counts maps / slice backing arrays reachable from both a and b.
 func vfSharedMutable(a, b interface{}) int {
